@@ -449,10 +449,11 @@ class C21(Check):
             c['qp']['units'] = False
             yield c
         for i, con in enumerate(q['cons']):
-            for k in ('scaler', 'adder', 'ref', 'ref0', 'indices', 'linear'):
-                if k in con and con[k]:
+            for ks in (('scaler',), ('adder',), ('ref', 'ref0'), ('indices',), ('linear',)):
+                if any(con.get(k) for k in ks):     # ref/ref0 only together: a lone ref0 of 1 is ref == ref0
                     c = copy.deepcopy(plan)
-                    c['qp']['cons'][i].pop(k)
+                    for k in ks:
+                        c['qp']['cons'][i].pop(k, None)
                     yield c
             m = len(con['C'])
             if m > 1 and 'indices' not in con:
